@@ -16,6 +16,12 @@ CHECKS = {
     text="Generated-input search (60k quick / 1M thorough cases per run) with an exact two-directional token oracle: the annotated fn must be the literal prefix of the expansion, module items the literal prefix of the emitted module body, impl-block items the literal body of the emitted inherent impl. Exploration, not proof: it establishes the property on every generated program and shrinks any counterexample to a replay file.",
     note="Trusts proc_macro2's fallback lexer/printer to agree with rustc's (cross-checked by the E2 recorder leg) and that the mechanical port of lib.rs (engine/port/build.rs) follows the working tree; inputs that the macro rejects are outside the quantifier.",
     design="§2 C02"),
+ "C11": dict(
+    technique="property-based testing of compiled clients against the real unimock crate: clause matching in declared vs permuted order, partial-mock differential (trait call on Unimock vs original fn on &Unimock), panic expectations",
+    engine="E2",
+    text="With the unimock feature on, generated exported mockable fns / modules / entraited traits (arity 0..5 over literal-matchable types biased to equal neighbours, sync/async, generic/impl/no_deps/concrete deps, same-signature module fns) are compiled and run: the API must be nameable as requested; a clause with the call's values in declared order answers while one with permuted values must not match; on Unimock::new_partial(()) the un-mocked call must equal the original fn called with &Unimock (result and trace with per-fn tags); concrete-deps fns and entraited traits must panic instead. 250 programs quick / 4000 thorough.",
+    note="Parameter types are limited to what `matching!` can express as literals; unimock 0.6.8's own behaviour (each_call, new_partial, panics) is trusted.",
+    design="§2 C11"),
  "C15": dict(
     technique="property-based testing + coverage-guided fuzzing of (attribute tokens, item) pairs; oracle: no panic, output parses, documented misuses get their own diagnostic",
     engine="E1+E3",
